@@ -146,6 +146,21 @@ def finish(prop: str, tier: str, rules: list[Rule], started: float, explanation:
         used = set()
         for (rule, construct), obs in by_construct.items():
             cands = [i for i, k in enumerate(unfired) if i not in used and k.get("rule") == rule and alpha_equivalent(k.get("construct", ""), construct)]
+            if not cands and "{}" in construct:
+                # a message skeleton in which a piece that used to be literal is now computed (two recorded messages folded
+                # into one parametrised message): the recorded skeletons it generalises are these findings
+                pat = re.compile(".+".join(re.escape(part) for part in construct.split("{}")))
+                gen = [i for i, k in enumerate(unfired) if i not in used and k.get("rule") == rule 
+                       and pat.fullmatch(k.get("construct", ""))]
+                if gen:
+                    used.update(gen)
+                    k = unfired[gen[0]]
+                    for o in obs:
+                        o["verdict"] = "KNOWN-FINDING"
+                        o["known_finding"] = k.get("what", "")
+                        o["matched_generalising"] = [unfired[i].get("construct") for i in gen]
+                        matched.append((o, k))
+                    continue
             if not cands:
                 # same rule, same function, same call head (callee and first argument): the call site was reworded
                 h = _head(construct)
